@@ -157,6 +157,16 @@ else:
     e.atomic_charges = np.arange(6, dtype=float).reshape(3, 2) / 10
     e.weights = [0.5, 0.25, 0.25]
     objs = [ml.ConformerEnsemble(), ml.ConformerEnsemble(m), e, ml.ConformerEnsemble(falsy_mol(), n_conformers=1)]
+# history: an object whose atoms were also handed to another, non-copying container (their parent reference points there)
+_keep = []
+if kind == "mol":
+    sm = sample_mol()
+    _keep.append(ml.Promolecule([sm.atoms[1]]))
+    objs.append(sm)
+else:
+    se = ml.ConformerEnsemble(sample_mol(), n_conformers=2)
+    _keep.append(ml.Promolecule([se.atoms[1]]))
+    objs.append(se)
 for i, o in enumerate(objs):
     try:
         if ver == 2:
